@@ -746,8 +746,25 @@ pub enum Built {
     Panic(vcore::PanicInfo),
 }
 
+impl CmdSpec {
+    /// Generator invariants that minimisation on the serialised form must not break:
+    /// non-empty ids and names (the empty id is clap's id for external subcommand values).
+    pub fn well_formed(&self) -> bool {
+        self.args.iter().all(|a| !a.id.is_empty() && a.long.as_deref() != Some(""))
+            && self.groups.iter().all(|g| !g.id.is_empty())
+            && self.subs.iter().all(|s| !s.name.is_empty() && s.well_formed())
+    }
+}
+
 /// Build the definition and run clap's configuration checks on the whole tree.
 pub fn build_checked(spec: &CmdSpec) -> Built {
+    if !spec.well_formed() {
+        return Built::Invalid(vcore::PanicInfo {
+            message: "spec not well-formed (empty id or name)".into(),
+            file: "vmodel".into(),
+            line: 0,
+        });
+    }
     match vcore::catch(|| {
         let mut c = spec.to_clap();
         c.build();
